@@ -3,9 +3,11 @@ canonical order.  Code: src/ndn/encoding/name/{Name,Component}.py, src/ndn/encod
 import re
 import struct
 
+from props import c09_extract
+
 PROP = 'C09'
 TITLE = 'Name representations (URI, component list, wire) are mutually consistent'
-LEAN_TARGETS = ['NdnProofs.Props.C09']
+LEAN_TARGETS = ['NdnProofs.Props.C09', 'NdnProofs.Props.C09Tables']
 THEOREMS = [
     'Ndn.C09.decode_encode_name', 'Ndn.C09.normalize_wire',
     'Ndn.C09.isPrefix_iff', 'Ndn.C09.isPrefix_iff_componentwise',
@@ -17,6 +19,11 @@ THEOREMS = [
     'Ndn.C09.uri_root', 'Ndn.C09.uri_empty_component', 'Ndn.C09.uri_trailing_empty_component',
     'Ndn.C09.uri_trailing_slash_ignored', 'Ndn.C09.uri_leading_slash_optional',
     'Ndn.C09.escape_then_fromStr',
+    # generated tables (lean/NdnGen) pinned to the model
+    'Ndn.C09.tables_recognised', 'Ndn.C09.charset_table', 'Ndn.C09.type_constants', 'Ndn.C09.shorthand_tables',
+    'Ndn.C09.shorthand_lookup_inverse', 'Ndn.C09.shorthand_number_table', 'Ndn.C09.digest_tables', 'Ndn.C09.toStr_number_guard',
+    'Ndn.C09.escaping_table', 'Ndn.C09.empty_component_literals', 'Ndn.C09.type_range_probes', 'Ndn.C09.tlNumSize_table',
+    'Ndn.C09.packUint_table', 'Ndn.C09.writeTlNum_table', 'Ndn.C09.parseTlNum_table', 'Ndn.C09.int_digit_limit',
 ]
 PARTIAL = {}
 TRUSTED = [
@@ -24,6 +31,7 @@ TRUSTED = [
     'C09: int(s) / int(s,16) / bytearray.fromhex are modelled on strings over Component.CHARSET only (the code rejects any other character first); the CPython 4300-digit limit of int() is modelled with its default value',
     'C09: component values and names shorter than 2^64 bytes (struct.pack would raise otherwise); Component.from_bytes is modelled for typ >= 0',
     'C09: Name.decode is modelled as the code is (a component overrunning the Name Length is accepted - finding F3 of property C07); on such inputs the correspondence accepts the modelled answer or a rejection',
+    'C09: lean/NdnGen/C09.lean is regenerated on every run by harness/props/c09_extract.py from Component.py, Name.py and tlv_var.py (live constants of the imported modules, ast shapes, live probes of the range checks and of the TL-number / pack_uint_bytes ladders at the integer constants of their source); the name model READS the character set and the two shorthand tables from it, every other literal of the model is pinned to it by the *_table theorems (closed by evaluation). Trusted: the extractor (an unrecognised shape is emitted as false/unknown and fails tables_recognised), and that a step function is constant between the probed constants of its source',
 ]
 RULE = ('names of 0..8 components, types from {1,2,8,32,50,52,54,56,58,252,253,65535,random 1..65535}, value bytes weighted to '
         '/ % = . ~ _ - 0x00 0x7f-0xff, typed numbers at the 1/2/4/8-byte width boundaries, every one of the 256 byte values as a '
@@ -321,6 +329,11 @@ def _sized_name(rng, total, ncomp):
     # `left` falls into a gap of the length-of-length function (e.g. 1+3+252): pad with one more small component
     out.append([8, ''])
     return out + _sized_name(rng, left - 2, 1)
+
+
+def extract(repo):
+    """lean/NdnGen/C09.lean: CHARSET, TYPE_* constants, shorthand tables, escaping rule, TL-number ladders"""
+    return c09_extract.generate(repo)
 
 
 def cases(rng, tier):
@@ -904,7 +917,8 @@ LEVEL_TEXT = ('Lean 4 theorems over a hand-written model of Component.{from_byte
               'shorthand URI round trip under the canonical-number hypothesis (with the counterexample showing why), agreement of all '
               'accepted input forms, is_prefix = list prefix, and byte order = NDN canonical order from write_lex_mono. The model is '
               'tied to the code on every run by differential execution of the compiled model against the real functions, plus the '
-              'property oracle evaluated on the implementation.')
+              'property oracle evaluated on the implementation.'
+              ' The character set and the two typed-number shorthand tables of the model are read from lean/NdnGen/C09.lean, which is regenerated from the source on every run; the TYPE_* constants, MAX_COMPONENT_TYPE_VALUE, Name.TYPE_NAME, the digest words, the escaping exclusions and hex case, the 08 00 literals, the range of Type numbers and the thresholds of get_tl_num_size / write_tl_num / parse_tl_num / pack_uint_bytes are pinned to the generated values by theorems closed by evaluation (NdnProofs/Props/C09Tables.lean), so an edit of one of these constants breaks a proof obligation before any input is searched for.')
 LEVEL_NOTE = ('Proof is about the model; model=code is sampled (differential testing), not proved. Python str/int()/fromhex '
               'semantics are modelled on the CHARSET alphabet.')
 TECHNIQUE = 'Lean 4 proof (structural induction over byte strings / component lists, case analysis of the TL-number codec) + model/implementation correspondence check'
